@@ -24,7 +24,8 @@ func init() {
 			"R7 scope operations never append to a slice belonging to an argument scope. " +
 			"R8 Contains compares the argument's action bits as a subset of the receiver's ((a&b) != b or b&^a != 0), never as an overlap; R9 a scope's actions are read at an index that is also used with the same scope's repositories. " +
 			"R10 Scope.String joins actions with a comma only under (both repository scopes, same repository); R1c an action name becomes a bit (parseKnownAction) only for a resource scope that passed isKnown(), or the result is tested. " +
-			"R7b also: a slice handed to an exported constructor (NewScope(rss...)), and what slices.Compact/Delete/Clip make of it, is the caller's — it is never appended to, nor kept as a field that is appended to.",
+			"R7b also: a slice handed to an exported constructor (NewScope(rss...)), and what slices.Compact/Delete/Clip make of it, is the caller's — it is never appended to, nor kept as a field that is appended to. " +
+			"R11 NewScope compacts its sorted input, or compares every entry with the previous one before appending it to repositories (no scope is stored twice); R12 inside Scope.Iter the raw consumer is called directly only with elements of `others`: entries of the compact part go through the wrapper that first emits the pending unknown scopes.",
 		NotDecided: "all algebraic laws over sets of triples (union/containment/membership/equality/length agree with the set model), strict ordering of Iter and the print/parse round trip are value-level and not decided.",
 		Technique:  "static analysis: SSA dominance of sentinel guards, predicate path analysis, return provenance",
 	})
@@ -80,6 +81,8 @@ func runC09(c *core.Ctx) {
 	parallelSlicesIndexedAlike(c, "C09.R9")
 	scopeStringGroupsOnlyRepositories(c, "C09.R10")
 	knownActionOnlyForKnownScopes(c, "C09.R1")
+	constructorDeduplicatesInput(c, "C09.R11")
+	iterYieldsInOrderThroughTheWrapper(c, "C09.R12")
 }
 
 func strConstCmp(cd facts.Cond, fld string, want string) (eq bool, ok bool) {
